@@ -1,6 +1,7 @@
 """C06 - addition, doubling, negation, equality, affine conversion vs the
 textbook chord-and-tangent law."""
 from vf import lib, points, toy
+from vf.ref import nt
 from vf.lib import INFINITY, Point, PointJacobi
 from vf.points import FINITE_REPS, IDENT_REPS, build, judge_point, rep_class
 
@@ -235,6 +236,30 @@ def run(ctx, name, kind, **kw):
         cv, p, n = dom.curve, dom.p, dom.n
         fam = c.name
         G = dom.G
+        # points with structurally special coordinates (x = 0, +-1, +-2, +-3, the roots of 3x^2 + a = 0 where the tangent is "horizontal" in the
+        # doubling formula's M term, x = +-a, ...): short-cuts in the formulas that are keyed on such values show only here
+        xs = [0, 1, 2, 3, p - 1, p - 2, p - 3, (p - 1) // 2, (p + 1) // 2, cv.a % p, (-cv.a) % p, cv.b % p, (-cv.b) % p]
+        m3 = (-cv.a) * nt.inv(3, p) % p
+        if m3 and nt.legendre(m3, p) == 1:
+            r3 = nt.sqrt_mod(m3, p)
+            r3 = r3[0] if isinstance(r3, (list, tuple)) else r3
+            assert r3 * r3 % p == m3
+            xs += [r3, p - r3]
+        special = []
+        for x in xs:
+            for S in cv.lift_x(x)[:1]:
+                special.append((x, S))
+        ctx.count("special_points", len(special))
+        for x, S in special:
+            tag = "x=%s" % (x if x < 1000 else ("p-%d" % (p - x) if p - x < 1000 else "~%d bits" % x.bit_length()))
+            for rp in FINITE_REPS:
+                for rq in ("j1", "jz2", "jzr", "negz", "legacy"):
+                    _prod_add(ctx, dom, cfp, S, S, rp, rq, "prod.special_x.double", fam + "|" + tag)
+                check_unary(ctx, dom, cfp, S, rp, fam, False)
+            for rp, rq in (("jzr", "jzr"), ("j1", "jz2"), ("legacy", "negz")):
+                _prod_add(ctx, dom, cfp, S, cv.neg(S), rp, rq, "prod.special_x.opposite", fam + "|" + tag)
+                _prod_add(ctx, dom, cfp, S, G, rp, rq, "prod.special_x.generic", fam + "|" + tag)
+                _prod_add(ctx, dom, cfp, G, S, rp, rq, "prod.special_x.generic", fam + "|" + tag)
         for rnd in range(kw["rounds"]):
             k = rng.randrange(2, n - 1) if rnd else 1
             P = cv.mul(k, G)
